@@ -112,6 +112,8 @@ pub fn do_build<D: Distance>(
     b: &BuildOpts,
     bound: u64,
 ) -> BuildOutcome {
+    // two builds share the counters
+    let bound = if b.twice { bound.saturating_mul(2) } else { bound };
     let polls = AtomicU64::new(0);
     let progress = AtomicU64::new(0);
     let fired = AtomicBool::new(false);
@@ -153,7 +155,13 @@ pub fn do_build<D: Distance>(
             builder.progress(|_p| {
                 progress.fetch_add(1, Ordering::Relaxed);
             });
-            builder.build(wtxn)
+            let first = builder.build(wtxn);
+            if b.twice && cancel_at.is_none() && first.is_ok() {
+                // the same builder value, the same transaction, nothing pending: the options given once still hold
+                builder.build(wtxn)
+            } else {
+                first
+            }
         })
     });
     let p = polls.load(Ordering::Relaxed);
